@@ -173,6 +173,33 @@ want = sorted(np.asarray(a[..., 1], dtype='<f8').tobytes(order='F') for a in lev
 for rep in range(3):
     got = sorted(np.asarray(a, dtype='<f8').tobytes(order='F') for a in PlotfileCooker(p2)['b'][0])
     print('ALL', nb, 'files, pass', rep, 'ok' if got == want else 'WRONG', flush=True)
+# ... and on a level held in ONE small binary file (one box), many times over: every read has finished before the pool is done
+# feeding its tasks (a pool dropped at that moment dead-locks)
+pf2.n0 = [2, 2, 2]
+lev.boxes, lev.data, lev.files = lev.boxes[:1], lev.data[:1], [("Cell_D_00000", [0])]
+want = want[:1] if want[0] == np.asarray(lev.data[0][..., 1], dtype='<f8').tobytes(order='F') else [np.asarray(lev.data[0][..., 1], dtype='<f8').tobytes(order='F')]
+p3 = os.path.join(d, 'plt_one_file')
+gen.write_plotfile(pf2, p3)
+bad = 0
+for rep in range(40):
+    if rep == 20:
+        # a schedule the operating system may choose at any time, forced here: the pool's task-feeding thread is descheduled
+        # between handing out its last task and marking the end of the tasks - every result is back before the mark
+        import multiprocessing.pool as mpp, time
+        _set_length = mpp.IMapIterator._set_length
+        def _late(self, length):
+            time.sleep(0.05)
+            return _set_length(self, length)
+        mpp.IMapIterator._set_length = _late
+    got = sorted(np.asarray(a, dtype='<f8').tobytes(order='F') for a in PlotfileCooker(p3)['b'][0])
+    bad += got != want
+    if rep >= 30:
+        # the on-demand iterator under the same schedule
+        st3 = PlotfileCooker(p3)['b'][0]
+        bad += [np.asarray(a, dtype='<f8').tobytes(order='F') for a in st3.iter(slice(None))] != want
+        bad += [np.asarray(a, dtype='<f8').tobytes(order='F') for a in st3.iter([0])] != want
+    if rep % 10 == 9:
+        print('ONE', 'file, passes', rep + 1, 'ok' if not bad else 'WRONG', flush=True)
 print('DONE', flush=True)
 '''
 
@@ -182,15 +209,15 @@ def real_pool_selection_case(seed):
     box selections must be yielded and the iteration must END - run in a child process under a watchdog"""
     import subprocess
     import sys
-    out = dict(evals=1, keys=[core.khash('real-pool-iter', seed)], dist={'case=on-demand iterator with the real pool (empty selections included), then the level iterator over 2 x CPUs + 7 binary files': 1},
+    out = dict(evals=1, keys=[core.khash('real-pool-iter', seed)], dist={'case=on-demand iterator with the real pool (empty selections included), then the level iterator over 2 x CPUs + 7 binary files and 40 times over a one-file level (20 of them with a delayed end-of-tasks mark)': 1},
                samples=[], violations=[], disagreements=[])
     root = core.scratch_dir(f"c15_real_{seed}")
     os.makedirs(root)
     env = dict(os.environ, PYTHONPATH=core.REPO + os.pathsep + core.VERIF)
     desc = dict(seed=seed, case_fn='real_pool_selection_case')
     try:
-        r = subprocess.run([sys.executable, '-c', REAL_POOL_SCRIPT, str(seed), root], env=env, capture_output=True, text=True, timeout=90)
-        lines = [l for l in r.stdout.splitlines() if l.startswith(('SEL', 'ALL', 'DONE'))]
+        r = subprocess.run([sys.executable, '-c', REAL_POOL_SCRIPT, str(seed), root], env=env, capture_output=True, text=True, timeout=180)
+        lines = [l for l in r.stdout.splitlines() if l.startswith(('SEL', 'ALL', 'ONE', 'DONE'))]
         if 'DONE' not in lines:
             out['violations'].append(dict(desc, kind='iter-selection', what='the on-demand iterator raised or died: ' + (r.stderr.strip().splitlines() or ['?'])[-1][:300]))
         elif any(l.endswith('WRONG') for l in lines):
@@ -199,11 +226,14 @@ def real_pool_selection_case(seed):
     except subprocess.TimeoutExpired as e:
         allout = (e.stdout.decode() if isinstance(e.stdout, bytes) else (e.stdout or '')).splitlines()
         done = [l for l in allout if l.startswith('SEL')]
-        if len(done) >= 7:
-            what = ("iterating over a level spread over many binary files with the real process pool did not terminate within 90 s "
+        if len([l for l in allout if l.startswith('ALL')]) >= 3:
+            what = ("iterating over a level held in one binary file with the real process pool, repeated 40 times (the last 20 with the pool's task-feeding thread delayed before its end-of-tasks mark), did not terminate "
+                    f"within the watchdog's 180 s (passes completed before the hang: about {10 * len([l for l in allout if l.startswith('ONE')])})")
+        elif len(done) >= 7:
+            what = ("iterating over a level spread over many binary files with the real process pool did not terminate within 180 s "
                     f"(passes completed before the hang: {len([l for l in allout if l.startswith('ALL')])})")
         else:
-            what = (f"iter(selection) with the real process pool did not terminate within 90 s (selections completed before the hang: {len(done)}; "
+            what = (f"iter(selection) with the real process pool did not terminate within 180 s (selections completed before the hang: {len(done)}; "
                     f"the next one is number {len(done)} of [empty slice, empty slice beyond the end, reversed-bounds slice, empty list, ...])")
         out['violations'].append(dict(desc, kind='iter-selection', what=what))
     return out
